@@ -154,7 +154,7 @@ func (p *parser) ws() {
 }
 
 func isIdent(c byte) bool {
-	return c == '_' || c == '/' || c == '-' || c == ':' || c == '*' || c == '[' || c == ']' || c == '<' || c == '>' || c == '=' || c == '!' || c == '+' || c == '%' || c == '&' || c == '^' ||
+	return c == '_' || c == '^' || c == '$' || c == '/' || c == '-' || c == ':' || c == '*' || c == '<' || c == '>' || c == '=' || c == '!' || c == '+' || c == '%' || c == '&' ||
 		(c >= '0' && c <= '9') || (c >= 'a' && c <= 'z') || (c >= 'A' && c <= 'Z')
 }
 
@@ -256,7 +256,7 @@ func (p *parser) term() (*Term, error) {
 			op := "call"
 			if name == "phi" {
 				op = "phi"
-			} else if !strings.Contains(name, ".") && !strings.Contains(name, ":") {
+			} else if opNames[name] || strings.HasPrefix(name, "binop") || strings.HasPrefix(name, "unop") {
 				op = "op"
 			}
 			t = &Term{Op: op, Name: name, Args: args}
@@ -298,6 +298,13 @@ func (p *parser) term() (*Term, error) {
 	}
 	return t, nil
 }
+
+// opNames: operator and builtin names (terms with Op "op"); every other applied name is a call.
+var opNames = map[string]bool{"not": true, "neg": true, "eq": true, "ne": true, "lt": true, "le": true, "gt": true, "ge": true,
+	"add": true, "sub": true, "mul": true, "quo": true, "rem": true, "and": true, "or": true, "xor": true, "shl": true, "shr": true, "andnot": true,
+	"idx": true, "elem": true, "lookup": true, "slice": true, "list": true, "next": true, "range": true, "each": true, "has": true, "alt": true,
+	"len": true, "cap": true, "append": true, "recover": true, "copy": true, "delete": true, "min": true, "max": true, "new": true, "make": true,
+	"panic": true, "print": true, "println": true, "close": true, "complex": true, "real": true, "imag": true, "clear": true, "ssa:wrapnilchk": true}
 
 func isConstIdent(s string) bool {
 	if s == "true" || s == "false" || s == "nil" {
